@@ -369,8 +369,11 @@ def msig_case(draw, tier):
         fibers.append(ops)
     nrf = draw(ints(1, 3))
     rops = [[] for _ in range(nrf)]
+    # raise_strict spins (without yielding its kernel thread) until a waiter exists: fibers that use it
+    # must never be able to occupy every kernel thread at once
+    strict_fibers = list(range(min(nrf, max(1, threads - 1))))
     for k in ["mraise"] * nr + ["mstrict"] * nstrict:
-        f = rops[draw(ints(0, nrf - 1))]
+        f = rops[draw(st.sampled_from(strict_fibers))] if k == "mstrict" else rops[draw(ints(0, nrf - 1))]
         f.extend(small_ops(draw, 1))
         f.append(op(k))
     fibers.extend(r for r in rops if r)
@@ -593,6 +596,207 @@ SPECS["C01"] = rt_spec("C01", c01_parts, {"quick": 2500, "thorough": 24000},
     "virtual-time sleeps, yield; plus create/yield storms; " + SCHED_TXT + "Oracle: running-on map fed by the switch hooks (target of every switch must be SAVED, destroy only of a SAVED "
     "DONE fiber, once), pending-wake ghost, shadow heap (no access to a reclaimed control block or stack), all sub-oracles. Non-trivial = >= 2 kernel threads and at least one steal; "
     "'early_wake' counts wake-ups that arrived before the sleeper had switched away.")
+
+
+# =========================================================================== thread-level structures
+DS_ASSUME = ["x86-64, clang -O1 build of the current working tree with asserts on",
+             "interleavings at instrumented-access granularity under SC and under an x86-TSO store-buffer model (FIFO buffers, store->load reordering only, bounded delay)",
+             "in TSO mode an operation has responded once its stores are globally visible (operation boundaries act as fences); orderings inside one operation are explored",
+             "callers respect the documented roles (single consumer / single pusher / owner-only push+pop, one hazard record per thread)"]
+DS_TECH = ("property-based testing: Hypothesis-generated per-thread operation lists x generated schedules (SC + x86-TSO) under an owned scheduler; "
+           "oracle = Wing-Gong linearizability check against a sequential model for short histories + exactly-once / conservation / real-time-order invariants, shadow heap for use-after-reclaim")
+DS_SCHED = ("every case runs under 48 (quick) / 256 (thorough) generated schedules (fair, random walk, PCT, targeted delay on the structure's words), about a third of them with "
+            "x86-TSO store buffers; distinct = distinct (program, decision list). ")
+
+
+def ds_spec(pid, parts_fn, examples, rule):
+    return Spec(pid, "runner_rt", parts_fn, examples, rule=rule, assumptions=DS_ASSUME, technique=DS_TECH)
+
+
+def ds_part(name, strat_fn, share=1.0):
+    def mk(tier):
+        return {"name": name, "strategy": strat_fn(tier), "nsched": T(tier, 48, 256), "args": ["--tso", 1], "share": share}
+    return mk
+
+
+@st.composite
+def deque_case(draw, tier):
+    nth = draw(ints(1, 3))
+    shape = draw(st.sampled_from(["single_element_races", "growth_under_steal", "mixed", "mixed"]))
+    owner = []
+    for _ in range(draw(ints(2, T(tier, 8, 14)))):
+        if shape == "single_element_races":
+            owner.append(op("push", 1))
+            owner.append(op("pop", draw(ints(1, 2))))
+        elif shape == "growth_under_steal":
+            owner.append(op("push", draw(st.sampled_from([100, 200, 260, 300, 520]))))
+            owner.append(op("pop", draw(ints(0, 6))))
+        else:
+            owner.append(op("push", draw(st.sampled_from([1, 1, 2, 3, 8, 40, 257]))))
+            owner.append(op("pop", draw(ints(0, 5))))
+    fibers = [owner]
+    for _ in range(nth):
+        fibers.append([op("steal", draw(ints(1, T(tier, 30, 80))), draw(ints(0, 2)))])
+    return {"harness": "deque", "threads": 1, "cfg": {}, "fibers": fibers, "classes": ["thieves=%d" % nth, shape]}
+
+
+@st.composite
+def mpmc_case(draw, tier):
+    npush = draw(ints(1, 3))
+    npop = draw(ints(1, 3))
+    recycle = draw(ints(0, 1))
+    lazy = draw(ints(0, 1))
+    big = draw(st.booleans())   # enough retirements to trigger scans/reuse
+    fibers = []
+    for _ in range(npush):
+        ops = []
+        for _ in range(draw(ints(1, 3))):
+            ops.append(op("push", draw(ints(1, 12 if big else 4))))
+            if draw(st.booleans()):
+                ops.append(op("pop", draw(ints(1, 3)), draw(ints(0, 1))))
+        fibers.append(ops)
+    for _ in range(npop):
+        fibers.append([op("pop", draw(ints(1, 14 if big else 5)), draw(ints(0, 2)))])
+    order = draw(st.permutations(list(range(len(fibers)))))
+    fibers = [fibers[i] for i in order]
+    classes = ["pushers=%d" % npush, "poppers=%d" % npop, "recycle" if recycle else "free", "lazy_records" if lazy else "records_upfront", "long" if big else "short"]
+    return {"harness": "mpmc", "threads": 1, "cfg": {"recycle": recycle, "lazy_records": lazy}, "fibers": fibers, "classes": classes}
+
+
+@st.composite
+def queue_case(draw, tier):
+    kind = draw(st.sampled_from([0, 0, 1, 2]))
+    nprod = 1 if kind == 1 else draw(ints(1, 4))
+    fibers = []
+    for lane in range(nprod):
+        ops = []
+        for _ in range(draw(ints(1, 3))):
+            ops.append(op("push", draw(ints(1, 6)), draw(ints(0, 2)), lane))
+        fibers.append(ops)
+    cons = []
+    for _ in range(draw(ints(1, 5))):
+        k = draw(st.sampled_from(["pop", "pop", "poppush", "peek"] if kind == 0 else ["pop"]))
+        cons.append(op(k, draw(ints(1, 6)), draw(ints(0, 2))))
+    fibers.insert(draw(ints(0, len(fibers))), cons)
+    names = {0: "mpsc", 1: "spsc", 2: "mpsc_relaxed"}
+    return {"harness": "queue", "threads": 1, "cfg": {"qkind": kind, "lanes": nprod}, "fibers": fibers, "classes": [names[kind], "producers=%d" % nprod]}
+
+
+@st.composite
+def ring_case(draw, tier):
+    cap = draw(ints(1, 3))
+    npush, npop = draw(ints(1, 3)), draw(ints(1, 3))
+    fibers = []
+    for _ in range(npush):
+        fibers.append([op("tpush", draw(ints(2, 10)), draw(ints(0, 2)))])
+    for _ in range(npop):
+        fibers.append([op("tpop", draw(ints(2, 10)), draw(ints(0, 2)))])
+    order = draw(st.permutations(list(range(len(fibers)))))
+    fibers = [fibers[i] for i in order]
+    return {"harness": "ring", "threads": 1, "cfg": {"cap_log2": cap}, "fibers": fibers, "classes": ["cap=%d" % (1 << cap), "pushers=%d" % npush, "poppers=%d" % npop]}
+
+
+@st.composite
+def workq_case(draw, tier):
+    nth = draw(ints(2, 4))
+    fibers = [[op("wpush", draw(ints(1, 10)), draw(ints(0, 3)), draw(ints(0, 3)))] for _ in range(nth)]
+    return {"harness": "workq", "threads": 1, "cfg": {}, "fibers": fibers, "classes": ["threads=%d" % nth]}
+
+
+@st.composite
+def dwcas_case(draw, tier):
+    kind = draw(st.sampled_from([0, 0, 1, 1, 2]))
+    fibers = []
+    if kind == 0:
+        for _ in range(draw(ints(2, 4))):
+            ops = []
+            for _ in range(draw(ints(1, 4))):
+                k = draw(st.sampled_from(["push", "pop", "poppush", "poppush"]))
+                ops.append(op(k, draw(ints(1, 4)), draw(ints(0, 1))))
+            fibers.append(ops)
+    elif kind == 1:
+        fibers.append([op("push", draw(ints(1, 5)), draw(ints(0, 2))) for _ in range(draw(ints(1, 3)))])
+        for _ in range(draw(ints(1, 3))):
+            fibers.append([op("pop", draw(ints(1, 8)), draw(ints(0, 2)))])
+    else:
+        for _ in range(draw(ints(2, 4))):
+            ops = []
+            for _ in range(draw(ints(1, 4))):
+                if draw(st.booleans()):
+                    ops.append(op("push", draw(ints(1, 4))))
+                else:
+                    ops.append(op("flush", draw(ints(0, 1))))
+            fibers.append(ops)
+    names = {0: "mpmc_lifo", 1: "dist_fifo", 2: "mpmc_stack"}
+    return {"harness": "dwcas", "threads": 1, "cfg": {"dkind": kind}, "fibers": fibers, "classes": [names[kind], "threads=%d" % len(fibers)]}
+
+
+@st.composite
+def hazard_case(draw, tier):
+    nth = draw(ints(1, 4))
+    k = draw(ints(1, 4))
+    fibers = []
+    for t in range(nth):
+        ops = []
+        if t > 0 and draw(st.booleans()):
+            ops.append(op("work", draw(ints(1, 5))))
+            ops.append(op("reg"))
+        for _ in range(draw(ints(2, T(tier, 14, 30)))):
+            kind = draw(st.sampled_from(["protect", "protect", "deref", "release", "replace", "replace", "replace", "scan"]))
+            if kind == "protect":
+                ops.append(op("protect", draw(ints(0, 3)), draw(ints(0, k - 1))))
+            elif kind in ("deref", "release"):
+                ops.append(op(kind, draw(ints(0, k - 1))))
+            elif kind == "replace":
+                ops.append(op("replace", draw(ints(0, 3)), draw(ints(0, 3))))
+            else:
+                ops.append(op("scan"))
+        fibers.append(ops)
+    late = sum(1 for f in fibers if any(o[0] == "reg" for o in f))
+    return {"harness": "hazard", "threads": 1, "cfg": {"slots": k}, "fibers": fibers, "classes": ["records=%d" % nth, "slots=%d" % k, "late_registration" if late else "all_upfront"]}
+
+
+def c02_parts(tier):
+    return [dict(ds_part("deque", deque_case)(tier), share=0.6),
+            {"name": "storm", "strategy": mixed_case(tier, storm=True), "nsched": T(tier, 32, 160), "args": ["--tso", T(tier, 0, 1)], "share": 0.4}]
+SPECS["C02"] = Spec("C02", "runner_rt", c02_parts, {"quick": 2600, "thorough": 24000},
+    rule=("(a) one owner thread with generated push bursts (1..520, crossing the 2^8->2^9->2^10 growth) and pops against 1-3 thieves stealing a generated number of times; classes: "
+          "single-element owner/thief races, growth under steal, mixed; " + DS_SCHED + "Oracle: every value handed out was pushed, at most once; after a final owner drain every pushed value "
+          "was handed out exactly once; pop_bottom may say EMPTY only if all pushed values were taken by operations already begun; ABORT is a no-op; shadow heap on stale arrays. "
+          "(b) whole-runtime create/yield/lock storms on 2-3(4) kernel threads with the pending-wake ghost: a fiber made runnable is switched in exactly once per wake-up and nothing is "
+          "left queued at quiescence. Non-trivial = (a) a successful steal together with an aborted CAS or a growth, (b) >= 2 kernel threads and at least one steal."),
+    assumptions=DS_ASSUME + RT_ASSUME[2:], technique=DS_TECH + "; runtime part: pending-wake ghost over Hypothesis-generated fiber programs")
+SPECS["C13"] = ds_spec("C13", lambda tier: [ds_part("mpmc", mpmc_case)(tier)], {"quick": 2500, "thorough": 24000},
+    "1-3 pushers (that may also pop) and 1-3 poppers, each with its own hazard record (registered up-front or lazily mid-run), unique values, nodes either freed by the gc callback "
+    "(shadow-heap oracle) or recycled into the next push at once (ABA); " + DS_SCHED + "Oracle: FIFO linearizability with 'empty is excused if a push overlaps' for histories <= 40 ops; "
+    "always: exactly-once after a final drain, nothing invented, real-time order of non-overlapping pushes, EMPTY only if nothing completed is pending or something overlaps. "
+    "Non-trivial = >= 2 overlapping operations and at least one value transferred.")
+SPECS["C14"] = ds_spec("C14", lambda tier: [ds_part("hazard", hazard_case)(tier)], {"quick": 2500, "thorough": 24000},
+    "1-4 records x 1-4 slots over 4 shared cells: protect (load, publish, fence, validating re-read), deref, release, replace (swap in a fresh node, retire the old one), explicit scan, "
+    "records that register mid-run; allocation padding shapes the sorted address snapshot; " + DS_SCHED + "Oracle: the gc callback never sees a node with a protection validated before its "
+    "retirement; no deref of a reclaimed node (ghost + shadow heap); retired_count <= threshold after each retire; after a closing phase of 2*N*K dummy retirements per record everything "
+    "that record retired earlier has been reclaimed. Non-trivial = at least one validated protection and one reclamation.")
+SPECS["C15"] = ds_spec("C15", lambda tier: [ds_part("queue", queue_case)(tier)], {"quick": 2500, "thorough": 24000},
+    "strict MPSC (1-4 producers), SPSC, relaxed MPSC (one lane per producer) with one consumer doing trypop / peek / pop-then-repush on the returned node; " + DS_SCHED +
+    "Oracle: FIFO linearizability (empty excused by an overlapping push) for strict queues with <= 40 ops; always exactly-once, nothing invented, per-producer FIFO, real-time order for "
+    "the strict queues, EMPTY only if no completed push is pending or a push overlaps. Non-trivial = at least one overlapping pair and one value transferred.")
+SPECS["C16"] = ds_spec("C16", lambda tier: [ds_part("ring", ring_case)(tier)], {"quick": 2500, "thorough": 24000},
+    "capacity 2-8, 1-3 pushers and 1-3 poppers each issuing 2-10 trypush/trypop, so the slot index wraps several times; " + DS_SCHED + "Oracle: linearizability against a bounded FIFO "
+    "where a failed trypush/trypop is legal if full/empty at the linearisation point or any operation overlaps; completed pushes - begun pops <= capacity at every instant; exactly-once "
+    "after a final drain; real-time FIFO order. Non-trivial = an overlapping pair and index wrap-around.")
+SPECS["C17"] = ds_spec("C17", lambda tier: [ds_part("workq", workq_case)(tier)], {"quick": 2500, "thorough": 24000},
+    "2-4 threads pushing 1-10 items each; whoever is told START_WORKING pulls until EMPTY with generated work between pulls; " + DS_SCHED + "Oracle: worker sessions [START returned, "
+    "call of the get_work that said EMPTY] are pairwise disjoint; every item handed out exactly once; nothing left queued when all threads are done. Non-trivial = a push was QUEUED while a worker was active.")
+def c20_parts(tier):
+    return [dict(ds_part("dwcas", dwcas_case)(tier), share=0.6),
+            {"name": "msig", "strategy": msig_case(tier), "nsched": T(tier, 32, 160), "args": ["--tso", T(tier, 0, 1)], "share": 0.4}]
+SPECS["C20"] = Spec("C20", "runner_rt", c20_parts, {"quick": 2600, "thorough": 24000},
+    rule=("(a) LIFO with push / pop / pop-and-immediately-repush-the-same-node by 2-4 threads, dist FIFO with one pusher and 1-3 poppers (RETRY is a no-op), flushable stack with push / "
+          "lifo_flush / fifo_flush; the cmpxchg16b hook makes the snapshot->CAS window a scheduling point; " + DS_SCHED + "Oracle: linearizability against LIFO / FIFO / 'flush returns "
+          "everything pushed since the last flush in (reverse) push order', exactly-once per push generation. (b) multi-signal on the fiber runtime: 1-4 waiter fibers, raise / raise_strict, "
+          "a controller that raises for leftovers at quiescence; oracle: blocked-and-released waits == raises that reported a wake-up, never (blocked waiter and raised flag) at quiescence, "
+          "pending-wake ghost for exactly-once. Non-trivial = overlapping operations with a transfer (a), a wait that really blocked (b)."),
+    assumptions=DS_ASSUME + RT_ASSUME[2:], technique=DS_TECH + "; multi-signal part: counting model + quiescence oracle on the fiber runtime")
 
 NOT_APPLICABLE = {}
 HOOK_COMMITS = ["0bef496"]
